@@ -29,6 +29,11 @@ def opts_str(d):
     return ",".join("%s=%s" % (k, v) for k, v in d.items())
 
 
+def D(cid, opts, segs):
+    """kind D: a history like kind H whose rows are observed as rendered table lines (the -i letters select the groups)"""
+    return (cid, "D", opts_str(opts), ";".join(segs))
+
+
 def seg(t, lines):
     return "%d:%s" % (t, ",".join(enc_line(x) for x in lines))
 
